@@ -988,3 +988,75 @@ def rf146(run):
         run.violation(rule, fin, 'prefix verdict not consulted', 'reduce_decode_finish does not read `%s`, the field in which reduce_decode_start '
                       'stores the verdict of the prefix test' % field, line=fin.line)
     return n
+
+
+# ---------------------------------------------------------------------------------------------
+# RF160: the check hash is compared in all of its 64 bits
+# ---------------------------------------------------------------------------------------------
+
+def rf160(run):
+    rule = 'RF160'
+    run.rule(rule, 'mir-reduce.h: a value derived from the check hash (result of _reduce_str2hash / mir_hash_strict, the check_hash field, a '
+                   'local or parameter assigned or bound to one of these inside the header) is 64 bits wide wherever it is combined or '
+                   'compared: no conversion — implicit, as in `return a ^ b;` from a function of type int, or explicit — narrows it to a '
+                   'smaller integer type.  Otherwise an alteration of the bytes of the stored hash that the narrow type drops is accepted')
+    tu = run.tu('mir')
+    funcs = [g for g in tu.func_list if g.body is not None and g.file.endswith('mir-reduce.h')]
+    run.control(rule, 'functions of mir-reduce.h found', len(funcs) >= 10)
+    SRC_CALLS = {'_reduce_str2hash', 'mir_hash_strict', 'mir_hash', 'mir_hash_finish', 'mir_hash_step'}
+    tainted = {}   # function name -> set of local / parameter names
+
+    def is_tainted(n, names):
+        for y in F.walk(n):
+            if y['k'] == 'CallExpr' and y.get('callee') in SRC_CALLS:
+                return True
+            if y['k'] == 'MemberExpr' and y['n'] == 'check_hash':
+                return True
+            if y['k'] == 'DeclRefExpr' and y.get('n') in names and y.get('dk') in ('local', 'param'):
+                return True
+        return False
+    byname = {g.name: g for g in funcs}
+    for _ in range(4):
+        for g in funcs:
+            names = tainted.setdefault(g.name, set())
+            for x in g.walk():
+                if x['k'] == 'BinaryOperator' and x['op'] in ('=', '^=', '|=', '+=') and F.strip(x['c'][0])['k'] == 'DeclRefExpr' and is_tainted(x['c'][1], names):
+                    names.add(F.strip(x['c'][0])['n'])
+                if x['k'] == 'DeclStmt':
+                    for d in x.get('decls', []):
+                        if d.get('init') is not None and is_tainted(d['init'], names):
+                            names.add(d['n'])
+                if x['k'] == 'CallExpr' and x.get('callee') in byname:
+                    callee = byname[x['callee']]
+                    for k, a in enumerate(x['c'][1:]):
+                        if k < len(callee.params) and is_tainted(a, names):
+                            tainted.setdefault(callee.name, set()).add(callee.params[k]['n'] if isinstance(callee.params[k], dict) else callee.params[k])
+    n = src = 0
+    for g in funcs:
+        names = tainted.get(g.name, set())
+        for x in g.walk():
+            if x['k'] in F.CASTS and x.get('c'):
+                t = tu.type(x)
+                o = tu.type(x['c'][0])
+                if t is None or o is None or getattr(t, 'kind', None) != 'int' or getattr(o, 'kind', None) != 'int':
+                    continue
+                if not is_tainted(x['c'][0], names):
+                    continue
+                src += 1
+                inner = F.strip(x['c'][0])
+                # a deliberate extraction of some bytes (`(h >> 8 * i) & 255`) is not a comparison of the hash
+                extraction = inner['k'] == 'BinaryOperator' and inner['op'] in ('&', '>>') and \
+                    (inner['op'] == '>>' or any(F.const_value(c_) is not None and 0 <= F.const_value(c_) < (1 << (t.w or 64)) for c_ in inner['c']))
+                if o.w == 64 and t.w is not None and t.w < 64 and not extraction:
+                    n += 1
+                    run.functions_analysed.add(('mir', g.name))
+                    run.ob(rule, (g.name, x['l']), False, {'site': '%s:%d %s' % (g.relfile(), x['l'], g.name), 'expression': F.src(x['c'][0])[:70], 'to': t.s})
+                    run.violation(rule, g, 'check hash narrowed', '%s converts `%s` (64 bits, derived from the check hash) to %s (line %d): only the low %d '
+                                  'bits of the hash take part in the comparison, an alteration of the other bytes of the stored hash is '
+                                  'accepted' % (g.name, F.src(x['c'][0])[:60], t.s, x['l'], t.w), line=x['l'])
+    for g in funcs:
+        run.functions_analysed.add(('mir', g.name))
+    run.control(rule, 'hash-derived values found', sum(len(v) for v in tainted.values()) >= 1 or src >= 1)
+    run.ob(rule, ('header',), n == 0, {'functions': len(funcs), 'hash-derived variables': sorted('%s.%s' % (k, v_) for k, v in tainted.items() for v_ in v)[:20],
+                                       'conversions of hash-derived values inspected': src, 'narrowing': n})
+    return 1
